@@ -245,6 +245,38 @@ func (s *Sched) resolveChan(t *Thread, r *Req) bool {
 			s.ChanLog = append(s.ChanLog, ChanEvent{Thread: o.partner, Send: !isSend, Ch: c.p, Step: int(s.steps), Time: s.now})
 		}
 	}
+	if !isSend && o.partner == nil {
+		c := r.ch
+		if r.Kind == OpSelect {
+			c = r.cases[o.arm].cref()
+		}
+		if c.cap > 0 && c.v.Len() == c.cap {
+			// full buffered channel: the receive also admits the first parked sender
+			var first *Thread
+			for _, u := range s.partnersSend(t, c) {
+				if first == nil || u.parkSeq < first.parkSeq {
+					first = u
+				}
+			}
+			if first != nil {
+				ur := first.req
+				if ur.Kind == OpSelect {
+					for i, cs := range ur.cases {
+						if cs.isSend() && cs.cref().p == c.p {
+							ur.arm = i
+							break
+						}
+					}
+				}
+				ur.completed = true
+				r.pushFrom = first
+				first.Sends++
+				s.record(first, ur)
+				first.Ops[ur.Kind]++
+				s.ChanLog = append(s.ChanLog, ChanEvent{Thread: first, Send: true, Ch: c.p, Step: int(s.steps), Time: s.now})
+			}
+		}
+	}
 	if o.partner != nil {
 		u := o.partner
 		r.partner = u
@@ -309,6 +341,8 @@ func (sd Sender[T]) Send(v T) {
 	r := &Req{Kind: OpSend, ch: newCref(sd.ch)}
 	if r.ch.cap == 0 {
 		r.val = v
+	} else {
+		r.sendNative = func() { sd.ch <- v }
 	}
 	s.Point(r)
 	if r.partner != nil || r.completed {
@@ -341,7 +375,23 @@ func Recv2[T any](ch <-chan T) (T, bool) {
 		return r.recvVal.(T), r.recvOK
 	}
 	v, ok := <-ch
+	pushParked(r)
 	return v, ok
+}
+
+// pushParked performs, on the receiver's goroutine, the native send of the
+// parked sender that this receive admitted into the buffer.
+func pushParked(r *Req) {
+	if r.pushFrom == nil {
+		return
+	}
+	ur := r.pushFrom.req
+	if ur.Kind == OpSelect {
+		ur.cases[ur.arm].execNative()
+	} else if ur.sendNative != nil {
+		ur.sendNative()
+	}
+	r.pushFrom = nil
 }
 
 func Close[T any](ch chan<- T) {
@@ -487,5 +537,6 @@ func Select(hasDefault bool, cases ...Case) int {
 		return r.arm
 	}
 	c.execNative()
+	pushParked(r)
 	return r.arm
 }
